@@ -90,6 +90,7 @@ func (x *Engine) intrinsic(fr *Frame, st *State, name string, callee *ssa.Functi
 		a := x.atomicAddr(fr, st, args[0], pos)
 		x.interfere(fr, st, a)
 		old := x.name("ao", "Int", x.loadAddr(st, a))
+		x.assume(st, x.wf(rt(), old, st))
 		nv := x.name("an", "Int", wrapTerm(rt(), fmt.Sprintf("(+ %s %s)", old, args[1].T)))
 		x.storeAddr(st, a, nv)
 		if !args[0].Fresh {
@@ -101,6 +102,7 @@ func (x *Engine) intrinsic(fr *Frame, st *State, name string, callee *ssa.Functi
 		a := x.atomicAddr(fr, st, args[0], pos)
 		x.interfere(fr, st, a)
 		cur := x.name("ac", x.sortOf(args[1].Typ), x.loadAddr(st, a))
+		x.assume(st, x.wf(args[1].Typ, cur, st))
 		ok := x.name("cas", "Bool", fmt.Sprintf("(= %s %s)", cur, args[1].T))
 		x.storeAddr(st, a, fmt.Sprintf("(ite %s %s %s)", ok, args[2].T, cur))
 		if !args[0].Fresh {
